@@ -86,7 +86,9 @@ def check_table(case):
     rows = [[norm_cell(c) for c in row] for row in case['rows']]
     bad = []
     kinds = sorted({cell_kind(v) for row in rows for v, _u in row})
-    table_arg = [[(v, u) if u is not None else v for v, u in row] for row in rows]
+    # units given explicitly as nothing - (value, b'') or (value, None), written 'NONE' in the case - mean what a bare value means
+    table_arg = [[((v, None if u == 'NONE' else u) if u is not None else v) for v, u in row] for row in rows]
+    rows = [[(v, None if u in (b'', 'NONE') else u) for v, u in row] for row in rows]
     try:
         tw = LogiRec.LrTableWrite(case['lrtype'], case['name'], cols, table_arg)
         body = bytes([case['lrtype'], 0]) + b''.join(bytes(b) for b in tw.genLisBytes())
@@ -153,7 +155,7 @@ def check_table(case):
 def gen_tables(tier, part, of):
     i = 0
     cells = [v for v in BYTES_VALUES] + INT_VALUES + FLOAT_VALUES
-    unit_cells = [[b'ALLO', b'FEET'], [7, b'IN  '], [1.5, b'FEET'], [300, b'    ']]
+    unit_cells = [[b'ALLO', b'FEET'], [7, b'IN  '], [1.5, b'FEET'], [300, b'    '], [1.5, b''], [7, 'NONE'], [b'ALLO', b'']]
     for lrtype in (32, 34, 39):
         for name in NAMES:
             # 0 rows
